@@ -263,6 +263,7 @@ CONSTANTS Sizes,       \* block sizes offered, subset of 1..4
           Perms, UnitKinds,   \* subsets of {"id","rev","cyc"}, {"one","alt","gau"}
           Sigmas,      \* values of E_shift offered (0 = option absent)
           GsVals, MaxGsRows,  \* gram_schmidt cases: integer coefficients offered, number of vectors
+          DMode,       \* "free": eigenvalues chosen from DVals/GVals; "ladder": consecutive integers -3, -2, ... (all distinct)
           Kinds        \* case kinds generated: subset of {"lanczos","evo","arnoldi","gmres","gs"}
 
 \* definitions a cfg can refer to with  Const <- Name  (cfg files cannot hold negative literals / tuples)
@@ -271,6 +272,7 @@ DValsBig   == {-3, -1, 0, 1, 2, 4}
 GValsSmall == {<<-1, 0>>, <<2, 0>>, <<0, 1>>}
 GValsBig   == {<<-2, 0>>, <<-1, 0>>, <<1, 0>>, <<3, 0>>, <<0, 1>>, <<1, -1>>, <<0, -2>>, <<2, 1>>}
 AValsSmall == {<<0, 0>>, <<1, 0>>, <<1, 1>>}
+AValsOne == {<<1, 0>>}
 AValsBig   == {<<0, 0>>, <<1, 0>>, <<-1, 0>>, <<0, 1>>, <<2, 0>>, <<1, 1>>, <<1, -2>>}
 SigmasSmall == {0, 3}
 SigmasBig  == {0, 3, -4, 1}
@@ -378,10 +380,11 @@ BeginBlock == /\ pl.stage = "blk" /\ Len(pl.hdrs) < MaxBlocks
                         pl' = [stage |-> "D", fl |-> fl, hdrs |-> Append(pl.hdrs, [q |-> q, n |-> n, var |-> var, D |-> <<>>])]
 \* eigenvalues of the block, one at a time
 SetD == /\ pl.stage = "D"
-        /\ \E d \in (IF pl.fl = "herm" THEN {CInt(x) : x \in DVals} ELSE GVals) :
-             LET nb == Len(pl.hdrs)
-                 D == Append(pl.hdrs[nb].D, d)
-             IN pl' = [pl EXCEPT !.hdrs[nb].D = D, !.stage = IF Len(D) < pl.hdrs[nb].n THEN "D" ELSE "blk"]
+        /\ LET nb == Len(pl.hdrs)
+               ladder == CInt(HdrDim(pl.hdrs) - pl.hdrs[nb].n + Len(pl.hdrs[nb].D) - 3)
+           IN \E d \in (IF DMode = "ladder" THEN {ladder} ELSE IF pl.fl = "herm" THEN {CInt(x) : x \in DVals} ELSE GVals) :
+                LET D == Append(pl.hdrs[nb].D, d)
+                IN pl' = [pl EXCEPT !.hdrs[nb].D = D, !.stage = IF Len(D) < pl.hdrs[nb].n THEN "D" ELSE "blk"]
 \* the operator is complete: choose the charge sector of the start vector
 SectorIdx(hs, q0) == SortC({<<b, j>> \in (1..Len(hs)) \X (1..4) : hs[b].q = q0 /\ j <= hs[b].n})
 EndOp == /\ pl.stage = "blk" /\ pl.hdrs # <<>>
